@@ -54,7 +54,7 @@ def negotiation_stims(seed, tier, mc):
                       'req': {'meta': [], 'msgs': [msg]},
                       'script': {'init_meta': [], 'msgs': [[9] * 40] if shape == 'unary' else [[9] * 40, [], [7]], 'end': {'ok': True}, 'fail_before': False, 'no_compress': False},
                       'raw': {'method': 'POST', 'version': 'HTTP/2.0', 'uri': '/p.q.Svc/Unary' if shape == 'unary' else '/p.q.Svc/SStream',
-                              'headers': headers, 'msg': msg, 'flag': r['flag'], 'comp': comp, 'wellformed': wellformed},
+                              'headers': headers, 'msg': msg, 'flag': r['flag'], 'comp': comp, 'wellformed': wellformed, 'lead': (0, 0, 1, 49)[(len(stims) // 3) % 4]},
                       'table': r})
     return stims
 
